@@ -40,7 +40,7 @@ RULE = ("each run draws a server byte stream from a response grammar (every stat
         "plain connection, or GeminiClient.get/upload over TLS with a timeout of 1-30 s); baseline "
         "and segmented variant are both run. distinct = distinct (stream class, end, entry, result "
         "class); non-trivial = the stream was corrupted, cut short or segmented")
-PROBES = ["server_answers_in_its_last_handshake_flight", "server_stream_damaged_in_transit", "overlapping_calls_on_one_client", "upload_larger_than_socket_buffers", "unknown_charset", "nontext_codec", "over_cap", "stall_timeout", "rst_mid_body",
+PROBES = ["many_failed_connection_attempts_first", "server_answers_in_its_last_handshake_flight", "server_stream_damaged_in_transit", "overlapping_calls_on_one_client", "upload_larger_than_socket_buffers", "unknown_charset", "nontext_codec", "over_cap", "stall_timeout", "rst_mid_body",
           "fin_without_close_notify", "invalid_header", "must_succeed_core", "tls_entry",
           "titan_entry", "non2x_with_trailing_bytes", "connect_phase_fault", "trickling_server"]
 COMPONENTS = {
@@ -366,8 +366,18 @@ def connect_fault_case(ch, res):
     sim.loop.link_for_connect = lambda h, p: ({"outcome": "blackhole"} if fault == "blackhole" else {})
     out = {}
 
+    # a long-lived client that met the fault many times before (failures must not use anything up)
+    repeats = ch.pick("crepeat", [0, 0, 9, 12]) if fault in ("refuse", "rst-at-accept", "tls-garbage") else 0
+    if repeats:
+        res.stats["many_failed_connection_attempts_first"] += 1
+
     async def main():
         cl = GeminiClient(timeout=T, trust_on_first_use=tofu, tofu_db_path=pathlib.Path(scratch, "t.db"))
+        for _ in range(repeats):
+            try:
+                await cl.get(f"gemini://{HOST}/x")
+            except Exception:  # noqa
+                pass
         try:
             if entry == "get":
                 r = await cl.get(f"gemini://{HOST}/x")
@@ -388,7 +398,7 @@ def connect_fault_case(ch, res):
                     f"the call was still pending when the simulation ran out ({status})", **ctx)
     else:
         slow = fault in ("blackhole", "tls-stall")
-        limit = (T + 1.0) if slow else 1.0
+        limit = ((T + 1.0) if slow else 1.0) + repeats * 1.0
         if out["t_done"] > limit:
             res.violate(f"C13/connect-fault-not-bounded/{fault}/{entry}",
                         f"connect-phase fault '{fault}': call ended at {out['t_done']:.3f}, bound "
